@@ -7,7 +7,7 @@
      updater u : UpdateSessionCU   RLock ; [valid epoch, epoch registered] ;
                                    readConsumerToPairedWithProjectMap = RLock ; RUnlock   <- recursive!
                                    ; RUnlock                          (code as found, FixRLock = FALSE)
-                 with fixes/F22_update_session_cu_rlock.patch the lookup happens before the RLock.
+                 with fixes/F27a_update_session_cu_rlock.patch the lookup happens before the RLock.
      reader r  : GetSession        RLock ; RUnlock (readConsumerToPairedWithProjectMap), RLock ; RUnlock (getActiveProject)
      writer w  : UpdateEpoch / registerNewConsumer / writeConsumerToPairedWithProjectMap   Lock ; Unlock
 
